@@ -338,6 +338,9 @@ structure St where
   xacks : List (Nat × Nat × Nat × Nat × List Nat) := []
   xlin : List (Nat × Nat × Nat × Nat) := []
   xpolls : List (Nat × Nat × Nat × Nat × String) := []
+  /-- C08 rotation: per (stream, topic, group, client) the partitions served by its polls without a partition id
+  since the last operation that was not such a poll (or a clock / send) -/
+  rot : List ((Nat × Nat × Nat × Nat) × List Nat) := []
   /-- SDK high-level clients (C20): producers (id ↦ connection, configuration), consumers -/
   producers : List (Nat × Nat × Sdk.PCfg Ident Partitioning) := []
   consumers : List (Nat × SdkCons) := []
@@ -1333,6 +1336,35 @@ def stepLine (st : St) (raw : String) : St × List String :=
             | .error _ => none
           groupCheck st itxt np
         | _ => [])
+    -- C08: a member's polls without a partition id visit each partition of its share in turn
+    let (rot', rotMsgs) : List ((Nat × Nat × Nat × Nat) × List Nat) × List String :=
+      match op with
+      | .poll cn si ti none c _ _ _ =>
+        if !c.grp then (st.rot, []) else
+        (match (itxt.splitOn " "), st.sys.findStream si with
+        | "ok" :: pidS :: _, .ok sx =>
+          (match sx.findTopic ti, pidS.toNat? with
+          | .ok tx, some pid =>
+            if pid == 0 then (st.rot, []) else
+            let client := st.sys.clientOf cn
+            let key := (sx.id, tx.id, c.id, client)
+            let share : List Nat := match find? tx.groups c.id with
+              | some g => (match g.members.find? (fun m => m.id = client) with
+                | some m => m.share
+                | none => [])
+              | none => []
+            let served := ((st.rot.find? (·.1 == key)).map (·.2)).getD [] ++ [pid]
+            let n := share.length
+            let window := served.drop (served.length - n)
+            let bad := n ≥ 2 && served.length ≥ n && !(share.all (fun p => window.contains p))
+            ((st.rot.filter (·.1 != key)) ++ [(key, served)],
+              if bad then [s!"SPEC-VIOL {st.line} class=group-rotation the member's last {n} polls were served from {window}, its share is {share} op={opS.trimAscii.toString}"] else [])
+          | _, _ => (st.rot, []))
+        | _, _ => (st.rot, []))
+      | .clock _ | .send .. => (st.rot, [])
+      | .poll .. => (st.rot, [])
+      | _ => ([], [])
+    let extra := extra ++ rotMsgs
     let isMut := !(toks.headD "" == "poll" && toks.getLast? == some "0") &&
       !(["topic", "stats", "get-offset", "clock", "streams", "stream", "topics", "groups", "group", "me"].contains (toks.headD ""))
     let lastTopic := if isMut then [] else st.lastTopic
@@ -1356,7 +1388,7 @@ def stepLine (st : St) (raw : String) : St × List String :=
         [s!"SPEC-VIOL {st.line} class={cls}{if mtxt == itxt then ":model-agrees" else ""} op={opS.trimAscii.toString} expected={exp} impl={itxt}"]
     ({ st with asys := asys', spec := applyEffects st.sys.cfg st.spec effs, cov := cov
                corr := st.corr + msgs1.length, specViol := st.specViol + msgs2.length + extra.length
-               modelled := st.modelled + 1, lastTopic := lastTopic },
+               modelled := st.modelled + 1, lastTopic := lastTopic, rot := rot' },
       msgs0 ++ msgs1 ++ msgs2 ++ extra)
 
 def parseCfg (line : String) : St :=
